@@ -55,7 +55,7 @@ def gen_cases(tier, seed):
 
 def required(tier):
     return {"msg.decided": 5000, "msg.class.single_idx_ge_nout": 100, "msg.class.single_idx_lt_nout": 100,
-            "msg.class.acp": 1000, "msg.class.library_built_arguments": 100, "msg.class.float_amount": 300, "msg.class.none": 500, "msg.class.nonempty_scriptsig": 2000, "vector.ok": 1,
+            "msg.class.acp": 1000, "msg.class.library_built_arguments": 100, "msg.class.float_amount": 300, "msg.class.scriptcode_via_script()": 100, "msg.class.none": 500, "msg.class.nonempty_scriptsig": 2000, "vector.ok": 1,
             "history.steps": 500, "history.same_prevouts_changed_rest": 300, "e2e.signed_decided": 60, "signmsg.signatures_judged": 60, "signmsg.inconsistent_request_refused": 20, "e2e.inputs_valid": 60, "e2e.short_r": 2, "e2e.shared_txid": 20,
             "contract:witness_message.bip143": 60}
 
@@ -146,6 +146,8 @@ def run_case(kind, params, ctx):
     for idx in idxs:
         for flag in FLAGS:
             sc = rand_bytes(rng, rng.choice([1, 25, 26, 35, 71, 105, 252, 253, 254, 600, rng.randrange(1, 601)]))
+            if len(sc) == 1 and flag in (1, 0x82):
+                sc = bytes([rng.choice([0x00, 0x01, 0x02, 0x10, 0x11, 0x4F, 0x50, 0x51, 0x81])])   # one-byte scripts whose byte equals a small-integer / opcode value
             amount = rng.choice([0, 1, 21 * 10 ** 14, rng.getrandbits(51)])
             exp = rsh.bip143_preimage_fields(t, idx, sc, amount, flag)
             base = flag & 0x1F
@@ -167,7 +169,12 @@ def run_case(kind, params, ctx):
                 ctx.count("msg.class.float_amount")
             try:
                 sc_arg = cs.encode(len(sc)) + sc
-                if lib_built:
+                if lib_built and len(sc) <= 75 and flag in (1, 3, 0x82):
+                    # the repository's own recipe for a scriptCode of up to 75 bytes: script([witness_script.hex()]) (one direct push = length byte + script)
+                    import bits.script.utils as bsu_
+                    sc_arg = bytes(getattr(bsu_.script, "__wrapped__", bsu_.script)([sc.hex()]))
+                    ctx.count("msg.class.scriptcode_via_script()")
+                elif lib_built:
                     try:
                         sc_arg = bytes(bu_.compact_size_uint(len(sc))) + sc
                     except ContractViolation as cv:
@@ -204,6 +211,21 @@ def _sign_message(ctx, params, wm):
     idx = rng.randrange(n_in)
     sc = rand_bytes(rng, 25)
     amount = rng.getrandbits(40)
+    # the output being spent commits to SHA256(witnessScript) for EVERY scriptCode length of the quantifier (1..600; the 520-byte
+    # element limit applies to P2SH redeem scripts, not to witness scripts): the library's helper for it is part of the signing flow
+    import bits as _bits
+    for L in sorted({1, 2, 75, 76, 252, 253, 255, 256, 519, 520, 521, 522, 547, 600, rng.randrange(1, 601), rng.randrange(521, 601)}):
+        ws = rand_bytes(rng, L)
+        ctx.count("signmsg.witness_programs")
+        try:
+            wp = bytes(_bits.witness_script_hash(ws))
+        except ContractViolation:
+            raise
+        except Exception as e:
+            ctx.violation(f"flow/witness-program-refused/len{'<=520' if L <= 520 else '>520'}", f"witness_script_hash of a {L}-byte witness script raised {type(e).__name__}: {e}")
+            continue
+        if wp != hashlib.sha256(ws).digest():
+            ctx.violation(f"flow/witness-program-wrong/len{'<=520' if L <= 520 else '>520'}", f"witness_script_hash of a {L}-byte script = {wp.hex()}")
     for f in FLAGS:
         try:
             msg = bytes(wm(txins, idx, amount, cs.encode(len(sc)) + sc, txouts, version=t["version"], locktime=t["locktime"], sighash_flag=f))
